@@ -45,8 +45,18 @@ def run_for(pid):
     if not jobs:
         print("selftest %s: no stored corpus" % pid)
         return 0
+    # time budget (seconds, SA_CORPUS_BUDGET, default 900): the seeded changes of this property come first, then the
+    # refactorings; what is not started within the budget is reported as not run (it neither passes nor fails)
+    import time
+    budget = float(os.environ.get("SA_CORPUS_BUDGET", "900"))
+    t0 = time.time()
+
+    def guarded(j):
+        if time.time() - t0 > budget:
+            return None, "not run: time budget of %d s used up" % budget
+        return _run(pid, j[2])
     with ThreadPoolExecutor(max_workers=16) as ex:
-        res = list(ex.map(lambda j: _run(pid, j[2]), jobs))
+        res = list(ex.map(guarded, jobs))
     bad, skipped, n = [], 0, {"seed": 0, "refactoring": 0}
     exp = json.load(open(os.path.join(VERIF, "seeded", "EXPECT.json")))
     exp = dict(exp["seeds"], **exp["refactorings"])
